@@ -565,6 +565,17 @@ impl Database {
         let (value, version) = {
             let mut db = self.map.write().unwrap();
             let old_value = db.get(&key.to_string()).cloned();
+            // A key that waits for its arbiter takes no change until the conflict is resolved (the
+            // increment would also turn its version into -1, which the disk format reads as deleted)
+            if let Some(old) = &old_value {
+                if old.version == IN_CONFLICT_RESOLUTION_KEY_VERSION
+                    && old.state != ValueStatus::Deleted
+                {
+                    return Response::Error {
+                        msg: "Key is in conflict resolution".to_string(),
+                    };
+                }
+            }
             // A removed key that still waits to be deleted from disk counts as absent (0)
             let current_str = match &old_value {
                 Some(old) if old.state != ValueStatus::Deleted => old.to_string(),
